@@ -27,7 +27,7 @@ from harness.common import zlit, zlist
 
 GEN_MODULES = ['inject']
 MODEL_TARGETS = ['model/M_Inject.vo']
-PROOF_TARGETS = ['proofs/P_Inject.vo', 'proofs/P_InjectR.vo', 'proofs/P_InjectMC.vo']
+PROOF_TARGETS = ['proofs/P_Inject.vo', 'proofs/P_InjectR.vo', 'proofs/P_InjectMC.vo', 'proofs/P_InjectExt.vo']
 LEVEL = 'proof'
 RULE = ('A: totals 0..50, 2..6 dataset weights a_j/D (dyadic and decimal D, tiny and zero weights, exact halves), '
         'every combination of correction draws when there are <= 48, else random ones, plus real RandomState seeds; '
@@ -94,8 +94,13 @@ def _mk_counts_classes():
             self.key = key
 
         def generate_signal_events(self, rss, mean, poisson=True, src_detsigyield_weights_service=None):
+            from skyllh.core.storage import DataFieldRecordArray
             self.log.append(int(mean))
-            return (int(mean), {})
+            if int(mean) <= 0:
+                return (int(mean), {})
+            # keys collide on purpose (datasets j and j+2 share a key): the merge must append
+            ev = DataFieldRecordArray({'id': np.full((int(mean),), self.key, dtype=np.int64)})
+            return (int(mean), {self.key % 2: ev})
 
     return StubW, StubGen
 
@@ -110,6 +115,9 @@ class ScriptRandom(np.random.RandomState):
         self.t = 0
         self.batches = []
         self.n_pos = []
+
+    def poisson(self, lam=1.0, size=None):
+        return self.pois_value
 
     def _one(self, p):
         pos = [i for i, x in enumerate(p) if x > 0]
@@ -162,20 +170,25 @@ class CountsEnv:
                       sig_generator_list=gens, ds_sig_weight_factors_service=sw, cfg=self.cfg)
         return g, log, sw
 
-    def call(self, g, log, mean, random_state):
+    def call(self, g, log, mean, random_state, poisson=False):
         del log[:]
         rss = self.RSS(1)
         rss.random = random_state
         try:
-            (n_sig, d) = g.generate_signal_events(rss, mean, poisson=False)
-            return ['Ok', list(log), int(n_sig)]
+            if poisson:
+                random_state.pois_value = mean
+                (n_sig, d) = g.generate_signal_events(rss, mean + 0.25, poisson=True)
+            else:
+                (n_sig, d) = g.generate_signal_events(rss, mean, poisson=False)
+            merged = [(int(k), [int(x) for x in v['id']]) for k, v in d.items()]
+            return ['Ok', list(log), int(n_sig), merged]
         except Exception as ex:  # noqa: BLE001
             return ['Err', type(ex).__name__]
 
-    def run(self, ws, D, mean, random_state):
+    def run(self, ws, D, mean, random_state, poisson=False):
         g, log, sw = self.make(ws, D)
         w0 = sw._w.copy()
-        r = self.call(g, log, mean, random_state)
+        r = self.call(g, log, mean, random_state, poisson)
         if not np.array_equal(sw._w, w0):
             r = ['Err', 'dataset-weights-modified-in-place']
         return r
@@ -241,15 +254,29 @@ def check_counts_predicates(ctx, case, impl):
     if min(log) < 0:
         ctx.violation(site, 'negative-count', f'per-dataset counts {log}', case=case, impl=impl,
                       predicate='per-dataset counts are non-negative')
+    if len(impl) > 3:
+        merged = impl[3]
+        want = {}
+        for j, c in enumerate(log):
+            if c > 0:
+                want.setdefault(j % 2, []).extend([j] * c)
+        if sum(len(v) for _, v in merged) != n_sig or dict(merged) != want or len({k for k, _ in merged}) != len(merged):
+            ctx.violation(site, 'merged-events-differ', f'merged {merged} for counts {log}', case=case, impl=impl,
+                          predicate='reported n == number of events in the merged dictionary; nothing lost or duplicated')
     if any(a == 0 and c != 0 for a, c in zip(ws, log)):
         ctx.violation(site, 'zero-weight-dataset-gets-events', f'weights {ws} counts {log}', case=case, impl=impl,
                       predicate='zero-weight datasets receive none')
 
 
-def counts_term(ws, D, mean, batches):
+def counts_term(ws, D, mean, batches, poisson=False):
     st = '[' + '; '.join(zlist(b) for b in batches) + ']'
-    return (f'match ds_counts _ stream_choice (map (map Z.to_nat) {st}) {zlit(mean)} {zlit(D)} {zlist(ws)} with '
-            f'Ok (c, g) => Ok (c, map (map Z.of_nat) g) | Err e => Err e end')
+    sub = ('(fun j g c => Ok (c, (if 0 <? c then [(Z.of_nat j mod 2, repeat (Z.of_nat j) (Z.to_nat c))] else []), g))')
+    lam = mean + 7 if poisson else mean        # with poisson the argument is only the Poisson parameter
+    return (f'(match ds_counts _ stream_choice (map (map Z.to_nat) {st}) {zlit(mean)} {zlit(D)} {zlist(ws)} with '
+            f'Ok (c, g) => Ok (c, map (map Z.of_nat) g) | Err e => Err e end, '
+            f'match md_generate _ stream_choice (fun g m => ({zlit(mean)}, g)) Z {sub} {"true" if poisson else "false"} '
+            f'(map (map Z.to_nat) {st}) {zlit(lam)} {zlit(D)} {zlist(ws)} with '
+            f'Ok (n, d, g) => Ok (n, d, map (map Z.of_nat) g) | Err e => Err e end)')
 
 
 def run_counts(ctx, env, exprs, checks):
@@ -289,13 +316,16 @@ def run_counts(ctx, env, exprs, checks):
                 scripts = [[rng.randrange(npos) for _ in range(k)] for _ in range(ctx.budget(6, 24))]
                 scripts.append([0] * k)
                 scripts.append([npos - 1] * k)
-        for sc in scripts:
+        for si, sc in enumerate(scripts):
             rs = ScriptRandom(sc)
-            impl = env.run(ws, D, mean, rs)
-            case = {'part': 'A', 'ws': ws, 'D': D, 'mean': mean, 'script': sc, 'batches': rs.batches}
+            pflag = (mean + si) % 3 == 0
+            impl = env.run(ws, D, mean, rs, poisson=pflag)
+            case = {'part': 'A', 'ws': ws, 'D': D, 'mean': mean, 'script': sc, 'batches': rs.batches, 'poisson': pflag}
             ctx.case(case)
+            if pflag:
+                ctx.count('A:poisson')
             check_counts_predicates(ctx, case, impl)
-            exprs.append(counts_term(ws, D, mean, rs.batches))
+            exprs.append(counts_term(ws, D, mean, rs.batches, pflag))
             checks.append(('counts', case, impl))
         # any seed: the real generator (predicates only)
         for _ in range(ctx.budget(2, 6)):
@@ -314,6 +344,20 @@ def rhe_list(ws, D, mean):
 
 
 def compare_counts(ctx, case, impl, v):
+    v2 = None
+    if isinstance(v, tuple) and len(v) == 2 and isinstance(v[0], tuple) and v[0][0] in ('Ok', 'Err'):
+        v, v2 = v
+    if v2 is not None:
+        if isinstance(v2, tuple) and v2[0] == 'Ok':
+            n, d, g = v2[1]
+            m2 = ['Ok', n, [(k, list(ids)) for k, ids in d]]
+        elif isinstance(v2, tuple) and v2[0] == 'Err':
+            m2 = ['Err', v2[1]]
+        else:
+            m2 = ['unparsed', repr(v2)[:200]]
+        i2 = ['Ok', impl[2], [(k, list(ids)) for k, ids in impl[3]]] if impl[0] == 'Ok' else impl
+        if m2 != i2:
+            ctx.disagree('signal_generator.md_generate', case, i2, m2)
     if isinstance(v, tuple) and v[0] == 'Ok':
         c, g = v[1]
         m = ['Ok', list(c)]
@@ -365,6 +409,9 @@ class AimRandom(np.random.RandomState):
         self.lo = lo
         self.pos = [i for i in range(len(cdf)) if self.cdf[i] - lo[i] > 1e-13]
         self.good = [i for i in good if i in set(self.pos)] or self.pos
+
+    def poisson(self, lam=1.0, size=None):
+        return self.pois_value
 
     def random(self, size=None):
         n = 1 if size is None else int(size)
@@ -467,7 +514,7 @@ def gen_mc_case(rng, small=False):
                      'batch': rng.choice([1, 2, 128])})
     return {'part': 'B', 'dss': dss, 'shgs': shgs, 'n_signal': rng.choice([0, 1, 2, 3, 5, 8, 13, 21, 34, 50]),
             'reject': rng.choice([0, 20, 50, 80, 90, 95, 95]), 'range_on_dec': rng.random() < 0.3,
-            'aim_seed': rng.randrange(2 ** 31)}
+            'aim_seed': rng.randrange(2 ** 31), 'poisson': rng.random() < 0.3, 'alt_shgs': None}
 
 
 def build_mc(env, case):
@@ -571,12 +618,23 @@ def mc_term(case, built, post_tab, stream, fuel, ranges_pos):
     dss = '[' + '; '.join(ds_t(d, rp) for d, rp in zip(built['num_dss'], ranges_pos)) + ']'
     pt = '[' + '; '.join(f'(({a}, {b}, {c}, {d}), {zlist(v)})' for (a, b, c, d), v in post_tab.items()) + ']'
     st = '[' + '; '.join(zlist(b) for b in stream) + ']'
+    n = case['n_signal']
+    pflag = 'true' if case.get('poisson') else 'false'
+    if case.get('alt_num_shgs'):
+        shgs0 = '[' + '; '.join(shg_t(h) for h in case['alt_num_shgs']) + ']'
+        ops = f'[OpChange shgs; OpGenerate {pflag} {n}]'
+    else:
+        shgs0 = 'shgs'
+        ops = f'[OpGenerate {pflag} {n}]'
     return (f'let shgs := {shgs} in let dss := {dss} in '
             f'match construct shgs dss with '
             f'| Err e => (Err e, Err e) '
             f'| Ok tbl => (Ok (map (fun c => (c_ds c, c_ev c, c_shg c, c_src c, c_wn c, c_wd c)) tbl), '
-            f'match generate _ stream_choice (assoc4 {pt}) {fuel} (map (map Z.to_nat) {st}) tbl dss {case["n_signal"]} with '
-            f'| Ok (n, out, g) => Ok (n, out, map (map Z.of_nat) g) | Err e => Err e end) end')
+            f'match mc_init {shgs0} dss with Err e => Err e | Ok st0 => '
+            f'match mc_run _ stream_choice (assoc4 {pt}) (fun g m => ({n}, g)) {fuel} st0 (map (map Z.to_nat) {st}) {ops} with '
+            f'| Ok (st, g, [(n, out)]) => if andb (forallb (fun ab => andb (c_wn (fst ab) =? c_wn (snd ab)) (andb (c_ev (fst ab) =? c_ev (snd ab)) (c_src (fst ab) =? c_src (snd ab)))) (combine (g_tbl st) tbl)) (Nat.eqb (length (g_tbl st)) (length tbl)) '
+            f'then Ok (n, out, map (map Z.of_nat) g) else Err AssertionError '
+            f'| Ok _ => Err AssertionError | Err e => Err e end end) end')
 
 
 def run_mc_case(ctx, env, case, exprs, checks):
@@ -612,10 +670,24 @@ def run_mc_case(ctx, env, case, exprs, checks):
             rp.append((1, int(round(rd['q'][0] * 2)), int(round(rd['q'][1] * 2))))
         ranges.append(rd)
         ranges_pos.append(rp)
+    case.pop('alt_num_shgs', None)
+    alt_mgr = None
+    if case.get('alt_shgs'):
+        # the generator is first built for other sources and then switched with change_shg_mgr
+        balt = build_mc(env, dict(case, shgs=case['alt_shgs']))
+        if balt is not None:
+            br2, mind2 = brute_candidates(balt['num_dss'], balt['num_shgs'])
+            if br2 and mind2 >= 1e-9 and any(c['wn'] > 0 for c in br2):
+                alt_mgr = env.SourceHypoGroupManager(balt['shgs'])
+                case['alt_num_shgs'] = balt['num_shgs']
     try:
         gen = env.MCMultiDatasetSignalGenerator(
-            cfg=env.cfg, shg_mgr=mgr, dataset_list=env.dsl[:n_ds], data_list=built['datal'],
-            valid_event_field_ranges_dict_list=ranges, ds_sig_weight_factors_service=env.StubW())
+            cfg=env.cfg, shg_mgr=alt_mgr if alt_mgr is not None else mgr, dataset_list=env.dsl[:n_ds],
+            data_list=built['datal'], valid_event_field_ranges_dict_list=ranges,
+            ds_sig_weight_factors_service=env.StubW2())
+        if alt_mgr is not None:
+            gen.change_shg_mgr(mgr)
+            ctx.count('B:via-change_shg_mgr')
     except Exception as ex:  # noqa: BLE001
         ctx.violation(site + '.__init__', 'raises-' + type(ex).__name__, str(ex)[:200], case=case,
                       predicate='construction succeeds on MC with >= 2 declinations')
@@ -688,7 +760,12 @@ def run_mc_case(ctx, env, case, exprs, checks):
     rss = env.RandomStateService(1)
     rss.random = rs
     try:
-        (n_sig, d) = gen.generate_signal_events(rss, case['n_signal'], poisson=False)
+        if case.get('poisson'):
+            rs.pois_value = case['n_signal']
+            ctx.count('B:poisson')
+            (n_sig, d) = gen.generate_signal_events(rss, case['n_signal'] + 0.3, poisson=True)
+        else:
+            (n_sig, d) = gen.generate_signal_events(rss, case['n_signal'], poisson=False)
         out = []
         for k in sorted(int(x) for x in d.keys()):
             a = d[k]
@@ -1212,6 +1289,77 @@ def run_probes(ctx):
     probe_many_sources(ctx, env, rng)
 
 
+# =========================================================================== part D: the relocation loop
+def run_relocation(ctx, exprs, checks):
+    """the real signal_event_post_sampling_processing with the rotation replaced by a tag function (the result
+    is the position of the source it was called with): which source is each event relocated to?"""
+    import skyllh.i3.signal_generation as i3sg
+    from skyllh.core.config import Config
+    from skyllh.core.flux_model import PowerLawEnergyFluxProfile, SteadyPointlikeFFM
+    from skyllh.core.source_hypo_grouping import SourceHypoGroup
+    from skyllh.core.source_model import PointLikeSource
+    from skyllh.core.storage import DataFieldRecordArray
+    rng = ctx.rng
+    cfg = Config()
+    fm = SteadyPointlikeFFM(Phi0=1., energy_profile=PowerLawEnergyFluxProfile(E0=1, gamma=2, cfg=cfg), cfg=cfg)
+    real = i3sg.rotate_signal_events_on_sphere
+
+    def fake(src_ra, src_dec, evt_true_ra, evt_true_dec, evt_reco_ra, evt_reco_dec):
+        # "rotation": the source position itself plus the event's own reco tag carried in the declination
+        return (np.array(src_ra, dtype=np.float64), np.array(evt_reco_dec, dtype=np.float64))
+    i3sg.rotate_signal_events_on_sphere = fake
+    try:
+        for _ in range(ctx.budget(25, 200)):
+            n_src = rng.choice([1, 2, 3, 5, 8])
+            n_ev = rng.choice([0, 1, 2, 5, 12])
+            kind = rng.choice(['any', 'any', 'sparse', 'single'])
+            if kind == 'single':
+                meta = [rng.randrange(n_src)] * n_ev
+            elif kind == 'sparse':
+                pool = rng.sample(range(n_src), max(1, n_src // 2))
+                meta = [rng.choice(pool) for _ in range(n_ev)]
+            else:
+                meta = [rng.randrange(n_src) for _ in range(n_ev)]
+            srcs = [PointLikeSource(ra=0.125 * (k + 1), dec=0.0) for k in range(n_src)]
+            shg = SourceHypoGroup(sources=srcs, fluxmodel=fm, detsigyield_builders=[],
+                                  sig_gen_method=i3sg.PointLikeSourceI3SignalGenerationMethod())
+            ids = list(range(100, 100 + n_ev))
+            ev = DataFieldRecordArray({'ra': np.zeros(n_ev), 'dec': np.array(ids, dtype=np.float64) / 1024.,
+                                       'sin_dec': np.zeros(n_ev), 'true_ra': np.zeros(n_ev), 'true_dec': np.zeros(n_ev)})
+            m = np.zeros((n_ev,), dtype=[('shg_src_idx', np.uint8), ('ev_idx', np.int32)])
+            m['shg_src_idx'] = meta
+            case = {'part': 'D', 'n_src': n_src, 'meta': meta}
+            ctx.case(case)
+            ctx.count('D:relocation:' + kind)
+            try:
+                out = shg.sig_gen_method.signal_event_post_sampling_processing(shg, m, ev)
+                got = ['Ok', [(int(round(float(out['ra'][i]) / 0.125)) - 1, int(round(float(out['dec'][i]) * 1024)))
+                              for i in range(len(out))]]
+            except Exception as ex:  # noqa: BLE001
+                got = ['Err', type(ex).__name__]
+            want = ['Ok', [(k, i) for k, i in zip(meta, ids)]]
+            if got != want:
+                ctx.violation('signal_event_post_sampling_processing', 'relocated-to-wrong-source',
+                              f'{got} instead of {want}', case=case, impl=got,
+                              predicate='every event is relocated to the source of its own candidate')
+            exprs.append(f'post_process Z (Z * Z) (fun s e => (s, snd e)) {zlist(range(n_src))} {zlist(meta)} '
+                         + '[' + '; '.join(f'(-1, {i})' for i in ids) + ']')
+            checks.append(('reloc', case, got))
+    finally:
+        i3sg.rotate_signal_events_on_sphere = real
+
+
+def compare_reloc(ctx, case, impl, v):
+    if isinstance(v, tuple) and v[0] == 'Ok':
+        m = ['Ok', [tuple(x) for x in v[1]]]
+    elif isinstance(v, tuple) and v[0] == 'Err':
+        m = ['Err', v[1]]
+    else:
+        m = ['unparsed', repr(v)[:200]]
+    if m != impl:
+        ctx.disagree('signal_generation.post_process', case, impl, m)
+
+
 # =========================================================================== driver
 def evaluate(ctx, name, exprs, checks):
     if not exprs:
@@ -1228,6 +1376,8 @@ def evaluate(ctx, name, exprs, checks):
         ctx.corr_cases += 1
         if kind == 'counts':
             compare_counts(ctx, case, impl, v)
+        elif kind == 'reloc':
+            compare_reloc(ctx, case, impl, v)
         else:
             compare_mc(ctx, case, impl, v)
 
@@ -1241,6 +1391,7 @@ def run(ctx):
         ctx.broken.append({'kind': 'harness', 'error': f'history probes: {type(ex).__name__}: {ex}'})
     exprs, checks = [], []
     run_counts(ctx, CountsEnv(), exprs, checks)
+    run_relocation(ctx, exprs, checks)
     evaluate(ctx, 'c18a', exprs, checks)
     exprs, checks = [], []
     env = McEnv()
@@ -1249,6 +1400,8 @@ def run(ctx):
     while len(exprs) < n_b and tried < 6 * n_b:
         tried += 1
         case = gen_mc_case(ctx.rng, small=not ctx.thorough() or tried % 3 != 0)
+        if tried % 3 == 1:
+            case['alt_shgs'] = gen_mc_case(ctx.rng, small=True)['shgs']
         run_mc_case(ctx, env, case, exprs, checks)
     if checks:
         c = checks[-1][1]
@@ -1269,11 +1422,11 @@ def replay(ctx, rp):
             check_counts_predicates(ctx, c, impl)
         else:
             rs = ScriptRandom(c.get('script') or [])
-            impl = env.run(c['ws'], c['D'], c['mean'], rs)
+            impl = env.run(c['ws'], c['D'], c['mean'], rs, poisson=bool(c.get('poisson')))
             case = dict(c, batches=rs.batches)
             ctx.case(case)
             check_counts_predicates(ctx, case, impl)
-            exprs.append(counts_term(c['ws'], c['D'], c['mean'], rs.batches))
+            exprs.append(counts_term(c['ws'], c['D'], c['mean'], rs.batches, bool(c.get('poisson'))))
             checks.append(('counts', case, impl))
         evaluate(ctx, 'c18r', exprs, checks)
     elif c.get('part') == 'B' and 'dss' in c:
